@@ -130,7 +130,7 @@ TOKEN = {"total": 1, "jobs": [{"idx": 0, "ups": [], "dur": 0.6, "w": 1, "code": 
 def crash_enumerate(ctx):
     for name, base in (("chain", CHAIN), ("token", TOKEN)):
         for k in (1, 2, 3):
-            for where in ("before-spawn", "after-spawn"):
+            for where in ("before-spawn", "after-spawn", "pid-file-empty"):
                 # restart at once (the job is still running) or after the job has ended (its token
                 # file is then stale when the new scheduler opens the token)
                 for delay in (0, 2.5):
